@@ -287,6 +287,43 @@ def serveFull (fc : Full) (fr : FReq) : FObs :=
             none,
             (if fc.maxAge = 0 then none else some (maxAgeStr fc.maxAge))⟩
 
+/-! ## several instances on the path of one request (round 5)
+
+`e.Use(CORS…)` plus a group- or route-level instance, or two instances on one route: echo runs
+them outermost first; an instance that does not call `next` ends the request, one that does leaves
+its headers in the shared response (`Header().Set` of an inner instance overwrites, `Vary` is
+added to).  Every instance reads the same request; the context value under
+`echo.ContextKeyHeaderAllow` is read by each instance when it runs (an `e.Pre` instance runs
+before the router has set it), so it is an input per layer, like the Skipper's answer. -/
+
+structure Layer where
+  cfg : Full
+  skip : Bool
+  routerAllow : Str
+
+/-- the request as this layer sees it: same method, same headers -/
+def layerReq (fr : FReq) (l : Layer) : FReq := { fr with skip := l.skip, routerAllow := l.routerAllow }
+
+/-- what one layer does with the request on its own -/
+def Layer.run (fr : FReq) (l : Layer) : FObs := serveFull l.cfg (layerReq fr l)
+
+/-- the handler behind the stack answers 200 -/
+def handlerObs : FObs := noHeaders ⟨200, true, none, false, []⟩ none
+
+/-- `outer` called `next`; `inner` is what the rest of the chain did with the shared response -/
+def mergeObs (outer inner : FObs) : FObs :=
+  ⟨⟨inner.core.status, inner.core.ran, inner.core.acao <|> outer.core.acao,
+     inner.core.acac || outer.core.acac, outer.core.vary ++ inner.core.vary⟩,
+   inner.allow <|> outer.allow, inner.acam <|> outer.acam, inner.acah <|> outer.acah,
+   inner.aceh <|> outer.aceh, inner.maxAge <|> outer.maxAge⟩
+
+/-- one request through a stack of instances (outermost first) in front of the handler -/
+def serveStack (fr : FReq) : List Layer → FObs
+  | [] => handlerObs
+  | l :: rest =>
+    let o := l.run fr
+    if o.core.ran then mergeObs o (serveStack fr rest) else o
+
 /-! ## wire -/
 open Wire
 
@@ -305,29 +342,37 @@ def pFunc : P (Option (Str → FRes)) := do
   let n ← nat
   pure (if n = 0 then none else some (fun _ => if n = 1 then .allow else if n = 2 then .deny else .err n))
 
-/-- line: `ctor skip creds unsafe n allow* func n methods* n headers* n expose* maxAge
-           preflight m originValue* routerAllow reqHeaders`
-    (`ctor` 1 = `CORS()`: the configuration tokens are ignored, the default configuration is used)
+/-- configuration tokens of one instance: `ctor creds unsafe n allow* func n methods* n headers* n expose* maxAge`
+    (`ctor` 1 = `CORS()`: the configuration tokens are ignored, the default configuration is used) -/
+def pFull : P Full := do
+  let ctor ← nat
+  let creds ← bool
+  let uw ← bool
+  let allow ← list str
+  let func ← pFunc
+  let methods ← list str
+  let headers ← list str
+  let expose ← list str
+  let maxAge ← int
+  pure (if ctor = 1 then defaultFull else ⟨⟨allow, creds, uw⟩, func, methods, headers, expose, maxAge⟩)
+
+/-- one instance: `skip routerAllow` + configuration tokens -/
+def pLayer : P Layer := do
+  let skip ← bool
+  let rAllow ← str
+  let fc ← pFull
+  pure ⟨fc, skip, rAllow⟩
+
+/-- line: `preflight m originValue* reqHeaders nLayers layer*` (layers outermost first, at least one)
     →  `status ran (0 | 1 acao) acac k vary* (0|1 allow) (0|1 acam) (0|1 acah) (0|1 aceh) (0|1 maxage)` -/
 def runLine (line : String) : String :=
   match parseLine (do
-      let ctor ← nat
-      let skip ← bool
-      let creds ← bool
-      let uw ← bool
-      let allow ← list str
-      let func ← pFunc
-      let methods ← list str
-      let headers ← list str
-      let expose ← list str
-      let maxAge ← int
       let pre ← bool
       let ov ← list str
-      let rAllow ← str
       let rh ← str
-      let fc : Full := if ctor = 1 then defaultFull else ⟨⟨allow, creds, uw⟩, func, methods, headers, expose, maxAge⟩
-      pure (fc, FReq.mk ⟨pre, ov⟩ skip rAllow rh)) line with
+      let layers ← list pLayer
+      pure (FReq.mk ⟨pre, ov⟩ false [] rh, layers)) line with
   | none => "bad-op"
-  | some (fc, fr) => encFObs (serveFull fc fr)
+  | some (fr, layers) => encFObs (serveStack fr layers)
 
 end C11
